@@ -1,11 +1,18 @@
 (* C13 - Query filters mean what they say. Property theorems only.
    Models: Query/Glob.v, Query/Regex.v, Query/Patterns.v (spydrnet/util/patterns.py),
    Query/Filter.v (the filter stages shared by spydrnet/util/get_*.py).
-   Not modelled: the enumeration of the candidates of each query function for each root kind; that
-   part is tied to the property by the metamorphic oracle of harness/query_check.py. *)
+   Query/Enum.v (the candidate enumeration of the eight non-hierarchical query functions per kind of
+   root object, and the whole queries = enumeration + stages + callback) and Query/EnumSpec.v (the
+   declarative specification of which elements a root leads to), second half of this file.
+   Not modelled: the candidate enumeration of the five hierarchical functions (get_hinstances ... get_hwires); that part is
+   tied to the property by the metamorphic oracle of harness/query_check.py. *)
 From Coq Require Import List NArith Bool Permutation String.
-From SV Require Import Base.Base Query.Glob Query.Regex Query.Patterns Query.Filter
-  Proofs.QueryGlob Proofs.QueryRegex Proofs.QueryFilterA Proofs.QueryFilterB Proofs.QueryFilter.
+From SV Require Import Base.Base IR.State IR.NS IR.Ops Hier.Paths Hier.Trace
+  Query.Glob Query.Regex Query.Patterns Query.Filter Query.Enum Query.EnumSpec
+  Proofs.QueryGlob Proofs.QueryRegex Proofs.QueryFilterA Proofs.QueryFilterB Proofs.QueryFilter
+  Proofs.NsInv Proofs.QueryEnumBase Proofs.QueryEnumInst Proofs.QueryEnumPorts Proofs.QueryEnumNetl
+  Proofs.QueryEnumPins Proofs.QueryEnumDefs Proofs.QueryEnumLibs Proofs.QueryEnumCables Proofs.QueryEnumFull Proofs.QueryEnumEx
+  Proofs.QueryEnumTerm Proofs.QueryEnumWires Proofs.QueryEnumWiresSpec.
 Import ListNotations.
 Local Open Scope string_scope.
 Local Open Scope list_scope.
@@ -171,3 +178,397 @@ Example C13_hier_example :
   run_hier true false (fun e => match e with 0 => s2l "u0" | 1 => s2l "u0/c" | _ => s2l "u1" end)
            [0; 1; 2] [2] [s2l "u0"; s2l "u*"] = [0; 1].
 Proof. exact x_hier. Qed.
+
+(* ============================================================================================ *)
+(* The whole query functions: candidate enumeration per kind of root object (Query/Enum.v) against
+   the declarative specification (Query/EnumSpec.v), then the stages above.
+
+   Hypotheses:  QWF s      - containment / reference sets / pin-wire links / outer-pin tables exact
+                             (properties C01, C02), ids well-kinded, references point at definitions:
+                             holds in every state reached by editing calls (C13_reachable_states);
+                LookOK s.. - under the chosen key global_service.lookup agrees with a linear scan
+                             and sibling values differ (property C10; for .NAME it follows from
+                             C10's table invariant, C13_lookup_hypothesis_for_names);
+                ~ In [] pats - the empty string is not a pattern;
+                "= WOk res"  - the run terminated within the fuel and did not raise.
+   A root is any [item]: an element of any class, an outer pin, a detached outer pin, a hierarchical
+   reference. *)
+
+Theorem C13_reachable_states : forall ops, QWF (Ops.run ops State.init).
+Proof. exact reachable_qwf. Qed.
+Print Assumptions C13_reachable_states.
+
+Theorem C13_lookup_hypothesis_for_names : forall s reg r,
+  NsInv s -> ns_rel r = true -> (forall p, kids s r p <> [] -> nstab s p <> None) -> LookOK s reg str_NAME r.
+Proof. exact lookok_name. Qed.
+Print Assumptions C13_lookup_hypothesis_for_names.
+
+Example C13_enumeration_hypotheses_satisfiable :
+  QWF ex /\ LookOK ex true str_NAME RChildren /\ LookOK ex false str_NAME RDefs /\
+  LookOK ex true str_NAME RLibs /\ LookOK ex true str_NAME RPorts /\ LookOK ex true str_NAME RCables.
+Proof. exact ex_hypotheses. Qed.
+
+(* ---- get_instances ---- *)
+
+(* the candidates walked from a root are exactly the elements the specification names *)
+Theorem C13_get_instances_candidates : forall s, QWF s -> forall rec inside fuel root ps os,
+  cands_instances s fuel [root] rec inside = WOk (ps, os) ->
+  (forall e, (exists p, In p ps /\ In e (kids s RChildren p)) <-> reachA_instances s rec inside root e) /\
+  (forall e, In e os <-> reachB_instances s rec inside root e).
+Proof. exact cands_instances_spec. Qed.
+Print Assumptions C13_get_instances_candidates.
+
+(* result = { e the root leads to | value under the key matches one of the patterns, callback accepts } *)
+Theorem C13_get_instances : forall s, QWF s -> forall o fuel root rec inside pats res,
+  LookOK s (q_reg o) (q_key o) RChildren -> ~ In [] pats ->
+  query_instances s o fuel [root] rec inside pats = WOk res ->
+  forall e, In e res <->
+    ((reachA_instances s rec inside root e /\ Filter.has_key (key_of s (q_key o)) e = true) \/
+     reachB_instances s rec inside root e) /\
+    (sel_match (q_case o) (q_re o) (key_of s (q_key o)) pats e = true /\ q_cb o e = true).
+Proof. exact query_instances_spec. Qed.
+Print Assumptions C13_get_instances.
+
+(* no element twice when the root reaches nothing for the name-map stage (a definition, library or
+   netlist with selection INSIDE) *)
+Theorem C13_get_instances_NoDup : forall s, QWF s -> forall o fuel root rec inside pats res,
+  (forall e, ~ reachB_instances s rec inside root e) ->
+  query_instances s o fuel [root] rec inside pats = WOk res -> NoDup res.
+Proof. exact query_instances_NoDup. Qed.
+Print Assumptions C13_get_instances_NoDup.
+
+(* ... but not from every root: get_instances(instance, ['a', 'a*']) yields child a twice (finding
+   C13-K1), on a netlist reached by editing calls; replayed on the implementation on every run *)
+Definition C13_get_instances_NoDup_full : Prop := instances_nodup_full.
+Theorem C13_get_instances_NoDup_refuted : ~ C13_get_instances_NoDup_full.
+Proof. exact instances_nodup_refuted. Qed.
+Print Assumptions C13_get_instances_NoDup_refuted.
+
+(* for any COLLECTION of roots: the result for a pattern list is the unfiltered result restricted to
+   the matching elements; the order of the patterns is irrelevant; with and without the fast lookup
+   the same list is returned *)
+Theorem C13_get_instances_filters_unfiltered : forall s o fuel roots rec inside pats res ures,
+  LookOK s (q_reg o) (q_key o) RChildren -> ~ In [] pats ->
+  query_instances s o fuel roots rec inside pats = WOk res ->
+  query_instances s (unfiltered o) fuel roots rec inside star_pat = WOk ures ->
+  forall e, In e res <-> In e ures /\ sel_match (q_case o) (q_re o) (key_of s (q_key o)) pats e = true.
+Proof. exact instances_filters_unfiltered. Qed.
+Print Assumptions C13_get_instances_filters_unfiltered.
+
+Theorem C13_get_instances_pattern_order : forall s o fuel roots rec inside pats pats' res res',
+  LookOK s (q_reg o) (q_key o) RChildren -> ~ In [] pats -> Permutation pats pats' ->
+  query_instances s o fuel roots rec inside pats = WOk res ->
+  query_instances s o fuel roots rec inside pats' = WOk res' -> forall e, In e res <-> In e res'.
+Proof. exact instances_pattern_order. Qed.
+Print Assumptions C13_get_instances_pattern_order.
+
+Theorem C13_get_instances_fast_eq_scan : forall s o fuel roots rec inside pats,
+  LookOK s (q_reg o) (q_key o) RChildren ->
+  query_instances s o fuel roots rec inside pats =
+  query_instances s (mkQ false (q_case o) (q_re o) (q_key o) (q_cb o)) fuel roots rec inside pats.
+Proof. exact instances_fast_eq_scan. Qed.
+Print Assumptions C13_get_instances_fast_eq_scan.
+
+Example C13_get_instances_example :
+  query_instances ex (opt_name true) 100 [IE 0] true true [s2l "a*"] = WOk [15; 10; 11] /\
+  query_instances ex (opt_name true) 100 [IE 2] true false [s2l "*"] = WOk [14; 16; 15; 11; 10].
+Proof. split; [exact ex_instances_netlist_recursive|exact ex_instances_outside_recursive]. Qed.
+
+(* ---- get_definitions ---- *)
+Theorem C13_get_definitions_candidates : forall s, QWF s -> forall rec inside fuel root ps os,
+  cands_definitions s fuel [root] rec inside = WOk (ps, os) ->
+  (forall e, (exists p, In p ps /\ In e (kids s RDefs p)) <-> reachA_definitions s inside root e) /\
+  (forall e, In e os <-> reachB_definitions s rec inside root e) /\ NoDup os.
+Proof. exact cands_definitions_spec. Qed.
+Print Assumptions C13_get_definitions_candidates.
+
+Theorem C13_get_definitions : forall s, QWF s -> forall o fuel root rec inside pats res,
+  LookOK s (q_reg o) (q_key o) RDefs -> ~ In [] pats ->
+  query_definitions s o fuel [root] rec inside pats = WOk res ->
+  forall e, In e res <->
+    (reachA_definitions s inside root e \/ reachB_definitions s rec inside root e) /\
+    (sel_match (q_case o) (q_re o) (key_of s (q_key o)) pats e = true /\ q_cb o e = true).
+Proof. exact query_definitions_spec. Qed.
+Print Assumptions C13_get_definitions.
+
+Theorem C13_get_definitions_NoDup : forall s, QWF s -> forall o fuel root rec inside pats res,
+  (forall e, ~ reachB_definitions s rec inside root e) ->
+  query_definitions s o fuel [root] rec inside pats = WOk res -> NoDup res.
+Proof. exact query_definitions_NoDup. Qed.
+Print Assumptions C13_get_definitions_NoDup.
+
+Theorem C13_get_definitions_filters_unfiltered : forall s o fuel roots rec inside pats res ures,
+  LookOK s (q_reg o) (q_key o) RDefs -> ~ In [] pats ->
+  query_definitions s o fuel roots rec inside pats = WOk res ->
+  query_definitions s (unfiltered o) fuel roots rec inside star_pat = WOk ures ->
+  forall e, In e res <-> In e ures /\ sel_match (q_case o) (q_re o) (key_of s (q_key o)) pats e = true.
+Proof. exact definitions_filters_unfiltered. Qed.
+Print Assumptions C13_get_definitions_filters_unfiltered.
+
+Theorem C13_get_definitions_pattern_order : forall s o fuel roots rec inside pats pats' res res',
+  LookOK s (q_reg o) (q_key o) RDefs -> ~ In [] pats -> Permutation pats pats' ->
+  query_definitions s o fuel roots rec inside pats = WOk res ->
+  query_definitions s o fuel roots rec inside pats' = WOk res' -> forall e, In e res <-> In e res'.
+Proof. exact definitions_pattern_order. Qed.
+Print Assumptions C13_get_definitions_pattern_order.
+
+Theorem C13_get_definitions_fast_eq_scan : forall s o fuel roots rec inside pats,
+  LookOK s (q_reg o) (q_key o) RDefs ->
+  query_definitions s o fuel roots rec inside pats =
+  query_definitions s (mkQ false (q_case o) (q_re o) (q_key o) (q_cb o)) fuel roots rec inside pats.
+Proof. exact definitions_fast_eq_scan. Qed.
+Print Assumptions C13_get_definitions_fast_eq_scan.
+
+Example C13_get_definitions_example :
+  query_definitions ex (opt_name true) 100 [IE 0] true true [s2l "*"] = WOk [13; 2; 5].
+Proof. exact ex_definitions_netlist. Qed.
+
+(* ---- get_libraries ---- *)
+
+(* every root, selection and recursive setting except: an instance (or an outer pin / reference
+   standing for one), OUTSIDE, recursive *)
+Theorem C13_get_libraries_candidates : forall s, QWF s -> forall rec inside fuel root ps os,
+  cands_libraries s fuel [root] rec inside = WOk (ps, os) ->
+  ~ (rec = true /\ inside = false /\ exists x, item_owner s root x /\ kind_of s x = Some KInstance) ->
+  (forall e, (exists p, In p ps /\ In e (kids s RLibs p)) <-> reachA_libraries s root e) /\
+  (forall e, In e os <-> reachB_libraries s rec inside root e) /\ NoDup os.
+Proof. exact cands_libraries_spec. Qed.
+Print Assumptions C13_get_libraries_candidates.
+
+Theorem C13_get_libraries : forall s, QWF s -> forall o fuel root rec inside pats res,
+  LookOK s (q_reg o) (q_key o) RLibs -> ~ In [] pats ->
+  ~ (rec = true /\ inside = false /\ exists x, item_owner s root x /\ kind_of s x = Some KInstance) ->
+  query_libraries s o fuel [root] rec inside pats = WOk res ->
+  forall e, In e res <->
+    (reachA_libraries s root e \/ reachB_libraries s rec inside root e) /\
+    (sel_match (q_case o) (q_re o) (key_of s (q_key o)) pats e = true /\ q_cb o e = true).
+Proof. exact query_libraries_spec. Qed.
+Print Assumptions C13_get_libraries.
+
+(* the excluded case: recursive is ignored, only the library of the enclosing definition is a candidate *)
+Theorem C13_get_libraries_instance_outside : forall s, QWF s -> forall o fuel root x rec pats res,
+  LookOK s (q_reg o) (q_key o) RLibs -> ~ In [] pats ->
+  item_owner s root x -> kind_of s x = Some KInstance ->
+  query_libraries s o fuel [root] rec false pats = WOk res ->
+  forall e, In e res <->
+    (exists p, par s RChildren x = Some p /\ par s RDefs p = Some e) /\
+    (sel_match (q_case o) (q_re o) (key_of s (q_key o)) pats e = true /\ q_cb o e = true).
+Proof. exact query_libraries_instance_outside. Qed.
+Print Assumptions C13_get_libraries_instance_outside.
+
+(* the statement without the exclusion is refuted by the faithful model: get_libraries(instance,
+   selection=OUTSIDE, recursive=True) misses the libraries above the enclosing definition
+   ("object_collection += parent" iterates the keys of the definition's dictionary); witness replayed
+   on the implementation on every run *)
+Definition C13_get_libraries_full : Prop := libraries_full.
+Theorem C13_get_libraries_refuted : ~ C13_get_libraries_full.
+Proof. exact libraries_full_refuted. Qed.
+Print Assumptions C13_get_libraries_refuted.
+
+Theorem C13_get_libraries_NoDup : forall s, QWF s -> forall o fuel root rec inside pats res,
+  (forall e, ~ reachB_libraries s rec inside root e) ->
+  ~ (rec = true /\ inside = false /\ exists x, item_owner s root x /\ kind_of s x = Some KInstance) ->
+  query_libraries s o fuel [root] rec inside pats = WOk res -> NoDup res.
+Proof. exact query_libraries_NoDup. Qed.
+Print Assumptions C13_get_libraries_NoDup.
+
+Theorem C13_get_libraries_filters_unfiltered : forall s o fuel roots rec inside pats res ures,
+  LookOK s (q_reg o) (q_key o) RLibs -> ~ In [] pats ->
+  query_libraries s o fuel roots rec inside pats = WOk res ->
+  query_libraries s (unfiltered o) fuel roots rec inside star_pat = WOk ures ->
+  forall e, In e res <-> In e ures /\ sel_match (q_case o) (q_re o) (key_of s (q_key o)) pats e = true.
+Proof. exact libraries_filters_unfiltered. Qed.
+Print Assumptions C13_get_libraries_filters_unfiltered.
+
+Theorem C13_get_libraries_pattern_order : forall s o fuel roots rec inside pats pats' res res',
+  LookOK s (q_reg o) (q_key o) RLibs -> ~ In [] pats -> Permutation pats pats' ->
+  query_libraries s o fuel roots rec inside pats = WOk res ->
+  query_libraries s o fuel roots rec inside pats' = WOk res' -> forall e, In e res <-> In e res'.
+Proof. exact libraries_pattern_order. Qed.
+Print Assumptions C13_get_libraries_pattern_order.
+
+Theorem C13_get_libraries_fast_eq_scan : forall s o fuel roots rec inside pats,
+  LookOK s (q_reg o) (q_key o) RLibs ->
+  query_libraries s o fuel roots rec inside pats =
+  query_libraries s (mkQ false (q_case o) (q_re o) (q_key o) (q_cb o)) fuel roots rec inside pats.
+Proof. exact libraries_fast_eq_scan. Qed.
+Print Assumptions C13_get_libraries_fast_eq_scan.
+
+Example C13_get_libraries_example :
+  query_libraries ex (opt_name true) 100 [IE 2] true false [s2l "*"] = WOk [12; 1] /\
+  query_libraries ex (opt_name true) 100 [IE 10] true false [s2l "*"] = WOk [1].
+Proof. split; [exact ex_libraries_definition_outside|exact ex_libraries_missing]. Qed.
+
+(* ---- get_ports: the whole property, every root ---- *)
+Theorem C13_get_ports_candidates : forall s, QWF s -> forall fuel root ps os,
+  cands_ports s fuel [root] = WOk (ps, os) ->
+  (forall e, (exists p, In p ps /\ In e (kids s RPorts p)) <-> reachA_ports s root e) /\
+  (forall e, In e os <-> reachB_ports s root e) /\ NoDup os.
+Proof. exact cands_ports_spec. Qed.
+Print Assumptions C13_get_ports_candidates.
+
+Theorem C13_get_ports : forall s, QWF s -> forall o fuel root pats res,
+  LookOK s (q_reg o) (q_key o) RPorts -> ~ In [] pats ->
+  query_ports s o fuel [root] pats = WOk res ->
+  NoDup res /\
+  forall e, In e res <->
+    (reachA_ports s root e \/ reachB_ports s root e) /\
+    (sel_match (q_case o) (q_re o) (key_of s (q_key o)) pats e = true /\ q_cb o e = true).
+Proof. exact query_ports_spec. Qed.
+Print Assumptions C13_get_ports.
+
+Theorem C13_get_ports_NoDup : forall s o fuel roots pats res,
+  query_ports s o fuel roots pats = WOk res -> NoDup res.
+Proof. exact ports_NoDup. Qed.
+Print Assumptions C13_get_ports_NoDup.
+
+Theorem C13_get_ports_filters_unfiltered : forall s o fuel roots pats res ures,
+  LookOK s (q_reg o) (q_key o) RPorts -> ~ In [] pats ->
+  query_ports s o fuel roots pats = WOk res ->
+  query_ports s (unfiltered o) fuel roots star_pat = WOk ures ->
+  forall e, In e res <-> In e ures /\ sel_match (q_case o) (q_re o) (key_of s (q_key o)) pats e = true.
+Proof. exact ports_filters_unfiltered. Qed.
+Print Assumptions C13_get_ports_filters_unfiltered.
+
+Theorem C13_get_ports_pattern_order : forall s o fuel roots pats pats' res res',
+  LookOK s (q_reg o) (q_key o) RPorts -> ~ In [] pats -> Permutation pats pats' ->
+  query_ports s o fuel roots pats = WOk res ->
+  query_ports s o fuel roots pats' = WOk res' -> forall e, In e res <-> In e res'.
+Proof. exact ports_pattern_order. Qed.
+Print Assumptions C13_get_ports_pattern_order.
+
+Theorem C13_get_ports_fast_eq_scan : forall s o fuel roots pats,
+  LookOK s (q_reg o) (q_key o) RPorts ->
+  query_ports s o fuel roots pats = query_ports s (mkQ false (q_case o) (q_re o) (q_key o) (q_cb o)) fuel roots pats.
+Proof. exact ports_fast_eq_scan. Qed.
+Print Assumptions C13_get_ports_fast_eq_scan.
+
+Example C13_get_ports_example : query_ports ex (opt_name true) 100 [IE 9] [s2l "*"] = WOk [3; 6].
+Proof. exact ex_ports_wire. Qed.
+
+(* ---- get_netlists: the whole property, every root ---- *)
+Theorem C13_get_netlists : forall s, QWF s -> forall o fuel root pats res, ~ In [] pats ->
+  query_netlists s o fuel [root] pats = WOk res ->
+  NoDup res /\
+  forall n, In n res <-> reach_netlists s root n /\
+    (sel_match (q_case o) (q_re o) (key_of s (q_key o)) pats n = true /\ q_cb o n = true).
+Proof. exact query_netlists_spec. Qed.
+Print Assumptions C13_get_netlists.
+
+Example C13_get_netlists_example : query_netlists ex (opt_name true) 100 [IE 4] [s2l "n"] = WOk [0].
+Proof. exact ex_netlists_pin. Qed.
+
+(* ---- get_pins (no patterns): every pin the root leads to, once, the callback on top ---- *)
+Theorem C13_get_pins : forall s, QWF s -> forall inside cb fuel root res,
+  query_pins s cb fuel [root] inside = WOk res ->
+  NoDup res /\ forall r, In r res <-> reach_pins s inside root r /\ cb r = true.
+Proof. exact query_pins_spec. Qed.
+Print Assumptions C13_get_pins.
+
+Example C13_get_pins_example : query_pins ex (fun _ => true) 100 [IE 9] false = WOk [POut 10 4; POut 14 7].
+Proof. exact ex_pins_wire_outside. Qed.
+
+(* ---- get_cables: selections INSIDE, OUTSIDE, BOTH - every kind of root, recursive or not ---- *)
+Theorem C13_get_cables_candidates : forall s, QWF s -> forall rec x fuel root ps os,
+  sel_all x = false -> cands_cables s fuel [root] rec x = WOk (ps, os) ->
+  (forall e, (exists p, In p ps /\ In e (kids s RCables p)) <-> reachA_cables s x root e) /\
+  (forall e, In e os <-> reachB_cables s rec x root e) /\ NoDup os.
+Proof. exact cands_cables_spec. Qed.
+Print Assumptions C13_get_cables_candidates.
+
+Theorem C13_get_cables : forall s, QWF s -> forall o fuel root rec x pats res,
+  sel_all x = false -> LookOK s (q_reg o) (q_key o) RCables -> ~ In [] pats ->
+  query_cables s o fuel [root] rec x pats = WOk res ->
+  NoDup res /\
+  forall e, In e res <->
+    (reachA_cables s x root e \/ reachB_cables s rec x root e) /\
+    (sel_match (q_case o) (q_re o) (key_of s (q_key o)) pats e = true /\ q_cb o e = true).
+Proof. exact query_cables_spec. Qed.
+Print Assumptions C13_get_cables.
+
+(* ---- get_cables: the clauses that do not depend on the enumeration, for any collection of roots,
+        every selection (INSIDE, OUTSIDE, BOTH, ALL) and recursive setting ---- *)
+Theorem C13_get_cables_NoDup : forall s o fuel roots rec x pats res,
+  query_cables s o fuel roots rec x pats = WOk res -> NoDup res.
+Proof. exact cables_NoDup. Qed.
+Print Assumptions C13_get_cables_NoDup.
+
+Theorem C13_get_cables_filters_unfiltered : forall s o fuel roots rec x pats res ures,
+  LookOK s (q_reg o) (q_key o) RCables -> ~ In [] pats ->
+  query_cables s o fuel roots rec x pats = WOk res ->
+  query_cables s (unfiltered o) fuel roots rec x star_pat = WOk ures ->
+  forall e, In e res <-> In e ures /\ sel_match (q_case o) (q_re o) (key_of s (q_key o)) pats e = true.
+Proof. exact cables_filters_unfiltered. Qed.
+Print Assumptions C13_get_cables_filters_unfiltered.
+
+Theorem C13_get_cables_pattern_order : forall s o fuel roots rec x pats pats' res res',
+  LookOK s (q_reg o) (q_key o) RCables -> ~ In [] pats -> Permutation pats pats' ->
+  query_cables s o fuel roots rec x pats = WOk res ->
+  query_cables s o fuel roots rec x pats' = WOk res' -> forall e, In e res <-> In e res'.
+Proof. exact cables_pattern_order. Qed.
+Print Assumptions C13_get_cables_pattern_order.
+
+Theorem C13_get_cables_fast_eq_scan : forall s o fuel roots rec x pats,
+  LookOK s (q_reg o) (q_key o) RCables ->
+  query_cables s o fuel roots rec x pats =
+  query_cables s (mkQ false (q_case o) (q_re o) (q_key o) (q_cb o)) fuel roots rec x pats.
+Proof. exact cables_fast_eq_scan. Qed.
+Print Assumptions C13_get_cables_fast_eq_scan.
+
+(* ---- get_wires (no patterns): for any collection of roots, every selection and recursive setting,
+        no wire is yielded twice and the callback is applied on top ---- *)
+Theorem C13_get_wires_NoDup : forall s cb fuel roots rec x res,
+  query_wires s cb fuel roots rec x = WOk res -> NoDup res.
+Proof. exact query_wires_NoDup. Qed.
+Print Assumptions C13_get_wires_NoDup.
+
+Theorem C13_get_wires_callback : forall s cb fuel roots rec x res,
+  query_wires s cb fuel roots rec x = WOk res ->
+  exists all, query_wires s (fun _ => true) fuel roots rec x = WOk all /\ res = filter cb all.
+Proof. exact query_wires_callback. Qed.
+Print Assumptions C13_get_wires_callback.
+
+(* selections INSIDE, OUTSIDE, BOTH, every kind of root: exactly the wires the specification names *)
+Theorem C13_get_wires : forall s, QWF s -> forall rec cb fuel root x res,
+  sel_all x = false -> query_wires s cb fuel [root] rec x = WOk res ->
+  NoDup res /\ forall w, In w res <-> reach_wires s rec x root w /\ cb w = true.
+Proof. exact query_wires_spec. Qed.
+Print Assumptions C13_get_wires.
+
+Example C13_get_wires_example : query_wires ex (fun _ => true) 100 [IE 16] true SInside = WOk [9].
+Proof. vm_compute. reflexivity. Qed.
+
+Example C13_get_cables_example : query_cables ex (opt_name true) 100 [IE 4] false SAll [s2l "*"] = WOk [8].
+Proof. vm_compute. reflexivity. Qed.
+
+(* ---- termination: "= WOk res" is not vacuous. The loops of get_netlists, get_ports and get_pins end
+        in every well-formed state; those of get_instances and get_definitions (every root, both
+        selections, recursive or not - they keep no visited set for the walk) end whenever the design
+        hierarchy is acyclic. ---- *)
+Theorem C13_get_netlists_terminates : forall s, QWF s -> forall roots,
+  exists fuel, cands_netlists s fuel roots <> WFuel.
+Proof. exact netlists_terminates. Qed.
+Print Assumptions C13_get_netlists_terminates.
+
+Theorem C13_get_ports_terminates : forall s, QWF s -> forall roots,
+  exists fuel, cands_ports s fuel roots <> WFuel.
+Proof. exact ports_terminates. Qed.
+Print Assumptions C13_get_ports_terminates.
+
+Theorem C13_get_pins_terminates : forall s, QWF s -> forall cb roots inside,
+  exists fuel, query_pins s cb fuel roots inside <> WFuel.
+Proof. exact pins_terminates. Qed.
+Print Assumptions C13_get_pins_terminates.
+
+Theorem C13_get_instances_terminates : forall s, QWF s -> acyclic s -> forall rec inside roots,
+  exists fuel, cands_instances s fuel roots rec inside <> WFuel.
+Proof. exact instances_terminates. Qed.
+Print Assumptions C13_get_instances_terminates.
+
+Theorem C13_get_definitions_terminates : forall s, QWF s -> acyclic s -> forall rec inside roots,
+  exists fuel, cands_definitions s fuel roots rec inside <> WFuel.
+Proof. exact definitions_terminates. Qed.
+Print Assumptions C13_get_definitions_terminates.
+
+Example C13_termination_hypotheses_satisfiable : QWF ex /\ acyclic ex.
+Proof. split; [exact ex_qwf|exact ex_acyclic]. Qed.
